@@ -1,32 +1,27 @@
-(* handlers for the implementation models *)
+(* oracle "block": block specification, decoder model, fast compressor model *)
 open Lz4v
-let z = Big_int_Z.big_int_of_int
-let zi = Big_int_Z.int_of_big_int
-let zs = Big_int_Z.big_int_of_string
-let hexval c = match c with
-  | '0'..'9' -> Char.code c - 48 | 'a'..'f' -> Char.code c - 87 | 'A'..'F' -> Char.code c - 55
-  | _ -> failwith "hex"
-let bytes_of_hex (s : string) =
-  if s = "-" then [] else begin
-    let n = String.length s / 2 in
-    let r = ref [] in
-    for i = n - 1 downto 0 do r := z (hexval s.[2*i] * 16 + hexval s.[2*i+1]) :: !r done; !r end
-let string_of_bytes l =
-  let b = Buffer.create 1024 in
-  List.iter (fun x -> Buffer.add_char b (Char.chr ((zi x) land 255))) l; Buffer.contents b
-let hex_of_string s =
-  if s = "" then "-" else begin
-    let b = Buffer.create (2 * String.length s) in
-    String.iter (fun c -> Buffer.add_string b (Printf.sprintf "%02x" (Char.code c))) s; Buffer.contents b end
-let full = (try Sys.getenv "ORACLE_FULL" = "1" with Not_found -> false)
-let show_bytes l =
-  let s = string_of_bytes l in
-  if full then Printf.sprintf "%d %s %s" (String.length s) (Digest.to_hex (Digest.string s)) (hex_of_string s)
-  else Printf.sprintf "%d %s" (String.length s) (Digest.to_hex (Digest.string s))
-let len l = z (List.length l)
-let zstr = Big_int_Z.string_of_big_int
+open Common
 
-let register (reg : string -> (string list -> string) -> unit) =
+let () =
+  reg "specdec" (function [h; b] -> show_opt (spec_decode_fast (bytes_of_hex h) (bytes_of_hex b)) | _ -> "badargs");
+  reg "strict" (function [h; b] -> show_opt (strict_valid_fast (bytes_of_hex h) (bytes_of_hex b)) | _ -> "badargs");
+  reg "specdec_ref" (function [h; b] -> show_opt (spec_decode (bytes_of_hex h) (bytes_of_hex b)) | _ -> "badargs");
+  reg "strict_ref" (function [h; b] -> show_opt (strict_valid (bytes_of_hex h) (bytes_of_hex b)) | _ -> "badargs");
+  reg "xxh32" (function [seed; b] -> Big_int_Z.string_of_big_int (xxh32 (Big_int_Z.big_int_of_string seed) (bytes_of_hex b)) | _ -> "badargs");
+  reg "frame" (function [strict; skip; d; b] ->
+      let bdec = if strict = "1" then strict_valid_fast else spec_decode_fast in
+      (match frame_decode bdec (skip = "1") (bytes_of_hex d) (bytes_of_hex b) with
+       | None -> "none"
+       | Some (c, rest) -> Printf.sprintf "ok %s rest=%d" (show_bytes c) (List.length rest))
+    | _ -> "badargs");
+  reg "stream" (function [strict; d; b] ->
+      let bdec = if strict = "1" then strict_valid_fast else spec_decode_fast in
+      let bs = bytes_of_hex b in
+      show_opt (stream_decode bdec false (Big_int_Z.big_int_of_int (List.length bs + 1)) (bytes_of_hex d) [] bs)
+    | _ -> "badargs")
+
+
+let () =
   (* dec <fast> <partial> <mode n|p|x> <src> <srcSize> <cap> <prefix> <dict> <fill> *)
   reg "dec" (function [fast; part; mode; src; srcsize; cap; prefix; dict; fill] ->
       let src = bytes_of_hex src and prefix = bytes_of_hex prefix and dict = bytes_of_hex dict and fill = bytes_of_hex fill in
@@ -37,7 +32,7 @@ let register (reg : string -> (string list -> string) -> unit) =
         | "n" -> NoDict, Big_int_Z.minus_big_int (len prefix)
         | "p" -> WithPrefix64k, z (-65536)
         | _ -> UsingExtDict, Big_int_Z.minus_big_int (len prefix)) in
-      let ((r, m), ok) = dec_generic (fast = "1") (part = "1") d srcm (zs srcsize) (zs cap) low dictm (len dict) m0 in
+      let ((r, m), ok) = dec_generic (fast = "1") (part = "1") d srcm (zs srcsize) (zs cap) low (Big_int_Z.minus_big_int (len prefix)) dictm (len dict) m0 in
       Printf.sprintf "%s %s %s" (zstr r) (if ok then "ok" else "OOB") (show_bytes (load_list m (z 0) (len fill)))
     | _ -> "badargs");
   (* decapi <fast> <partial> <src> <srcSize> <target> <cap> <placement p|x> <dict> <fill> *)
@@ -91,3 +86,6 @@ let register (reg : string -> (string list -> string) -> unit) =
       cur_ctx := a.a_ctx;
       show_ares a ^ " " ^ show_ctx a.a_ctx
     | _ -> "badargs")
+
+
+let () = Common.main ()
